@@ -51,6 +51,17 @@ def gen_cases(rng, tier, info):
     defs.append([mk("K" + "x" * 31, "i16", pk=True), mk("V" + "y" * 30, ("str", 3), null=True)])
     for _ in range(n):
         defs.append(G.schema_family(rng, "random"))
+    # two tables whose qualified column names coincide when joined with a dot ("Dir.Sub" + "Name" / "Dir" + "Sub.Name"): the
+    # catalogs key their rows by the PAIR (table, column)
+    for j in range(2):
+        h = G.History(rng, j, observe="snapshot")
+        h.add_table("Dir.Sub", [mk("Name", "i16", pk=True, rng=(1, 9)), mk("X", ("str", 4), null=True, cat="Identifier")]); h.obs()
+        h.add_table("Dir", [mk("Sub.Name", ("str", 8), pk=True, cat="Text"), mk("Sub.X", "i32", null=True, rng=(-5, 5))]); h.obs()
+        h.add_table("Dir.Sub.Name", [mk("K", "i16", pk=True)]); h.obs()
+        h.reopen(["flush", "into_inner"][j]); h.obs()
+        h.drop_table("Dir"); h.obs()
+        h.reopen(); h.obs()
+        cases.append(Case("dotted-names-%d" % j, h.cmds))
     names = ["T", "Tab_1", "A" * 31, "A" * 32, "A" * 33, "Zz.9"]
     for j in range(0, len(defs), 4):
         h = G.History(rng, rng.choice([0, 1, 2]), observe="snapshot")
